@@ -6,6 +6,7 @@ import json
 from hypothesis import strategies as st
 
 from ..common import Violation, Skip, run_cases, guarded, rejection_types
+from ..gen.templates import programs_or_templates
 from ..gen.programs import programs, build, render_program
 from .. import sched
 from ..eqcheck import ctrl_valuations, run_outcome, compare_outcomes, cfg_key_names, did_store, initial_config, CFG_TYPES
@@ -23,7 +24,7 @@ def step_strategy(names):
 def case_strategy(max_steps, names, **gen_opts):
     return st.fixed_dictionaries(
         {
-            "prog": programs(**gen_opts),
+            "prog": programs_or_templates(gen_opts.pop("template_pct", 20), **gen_opts),
             "steps": st.lists(step_strategy(names), min_size=1, max_size=max_steps),
             "val": st.fixed_dictionaries(
                 {
@@ -35,6 +36,23 @@ def case_strategy(max_steps, names, **gen_opts):
             ),
         }
     )
+
+
+def _stmt_class(det):
+    """for interpreter events: which kind of statement tripped the monitor"""
+    import re
+
+    m = re.search(r"in: (.*)", det)
+    if not m:
+        return "-"
+    t = m.group(1)
+    if re.match(r"^\w+: ", t):
+        return "alloc"
+    if re.match(r"^for ", t):
+        return "for"
+    if re.match(r"^\w+ = \w+\[.*:", t):
+        return "window"
+    return "other"
 
 
 def safe_str(p):
@@ -109,7 +127,7 @@ def check_schedule(case, prop, nvals, after_step=None, unsafe_is_violation=False
             if bad:
                 kind, det = bad
                 raise Violation(
-                    {"op": step[0], "kind": kind, "poison": str("derived POISON" in det), "args": json.dumps({a: b for a, b in desc.items() if a not in ("op", "at", "loop", "err")}, sort_keys=True, default=str)},
+                    {"op": step[0], "kind": kind, "poison": str("derived POISON" in det), "stmt": _stmt_class(det), "args": json.dumps({a: b for a, b in desc.items() if a not in ("op", "at", "loop", "err")}, sort_keys=True, default=str)},
                     f"step {k}: {json.dumps(desc, default=str)}\ninput {json.dumps(fv)}\n{det}\n--- original:\n{p0}\n--- before this step:\n{sp}\n--- after this step:\n{sq}\naccepted so far: {json.dumps(accepted, default=str)}",
                 )
         if after_step is not None:
